@@ -59,11 +59,12 @@ ENUM_QUICK = [
     ("p2,p2,d2,p0", 1), ("p1,d1,d0,d2,p0", 1), ("d3", 2), ("p0,d2,p0", 2),
 ]
 ENUM_THOROUGH = [
-    ("p1,d2,p0", 3), ("p1,d3,p0", 3), ("p2,d2,p0", 3), ("p2,d3,p0", 3),
-    ("p3,d3,p0", 2), ("p2,d4,p0", 2), ("p3,d2,p0", 2), ("p1,d5,p0", 3), ("p4,d3,p0", 1), ("p3,d5,p0", 1),
-    ("p1,p0", 3), ("p2,p0", 3), ("p3,p0", 2), ("p4,p0", 2),
+    ("p1,d2,p0", 3), ("p1,d3,p0", 3), ("p1,d5,p0", 3), ("p2,d2,p0", 3), ("p2,d3,p0", 3),
+    ("p2,d4,p0", 2), ("p3,d3,p0", 1), ("p3,d2,p0", 1), ("p3,d5,p0", 1), ("p4,d3,p0", 0), ("p5,d4,p0", 0),
+    ("p1,p0", 3), ("p2,p0", 3), ("p3,p0", 2), ("p4,p0", 1),
     ("p1,d2,d2,p0", 2), ("p2,d2,d3,p0", 2), ("p1,d2,p2,d2,p0", 2), ("p2,d2,p1,d2,p0", 2), ("p2,d3,p3,d3,p0", 1),
-    ("p2,p2,d2,p0", 2), ("p1,d1,d0,d2,p0", 2), ("d3", 2), ("p0,d2,p0", 2), ("p2,d2,d2,d2,p0", 1),
+    ("p3,d3,p2,d3,p0", 0), ("p2,p2,d2,p0", 2), ("p3,p3,p0", 1), ("p1,d1,d0,d2,p0", 2), ("d3", 2), ("p0,d2,p0", 2),
+    ("p2,d2,d2,d2,p0", 1),
 ]
 MALFORMED = ["run p2 | 0", "run x3 |", "frob 1 2", "run p1,p0", "run p17,p0 |", "run p1,p0 | 17", "run p1,d1001,p0 |",
              "free x p1,p0", "free 1 p1", "run p1,,p0 |"]
@@ -347,7 +348,7 @@ def run(ctx):
     ctx.extra["free_running_lines"] = nfree
 
     # ---- run the implementation once (parallel processes), then model vs implementation
-    outputs, problems = run_impl(impl, lines, 6, 900 if thorough else 240)
+    outputs, problems = run_impl(impl, lines, 6, 3000 if thorough else 900)
     seen = {}
     for kind, line, detail in problems:
         ctx.oracle_failure("c03:" + kind, detail, {"line": line, "replay": "echo '%s' | %s" % (line, impl)})
@@ -406,7 +407,7 @@ def run(ctx):
         """A proof / tie obligation broke but no oracle failure was seen: search harder on the implementation alone."""
         extra, _ = random_lines(ctx2, 6000)
         extra += free_lines(ctx2, 150)
-        outs2, probs2 = run_impl(impl, extra, 6, 600)
+        outs2, probs2 = run_impl(impl, extra, 6, 900)
         for kind, line, detail in probs2:
             return {"key": "c03:" + kind, "what": detail, "replay": {"line": line, "replay": "echo '%s' | %s" % (line, impl)}}
         for l, o in zip(extra, outs2):
